@@ -837,5 +837,34 @@ func main() {
 		}(sc, w)
 	}
 	wg.Wait()
+	// what the design asks for and this run did not produce is said so
+	need := [][2]string{
+		{"fault(kind|raft-role-of-victim|owns-master-partition)", "kill-during-flush|leader|master"},
+		{"fault(kind|raft-role-of-victim|owns-master-partition)", "kill|leader|master"},
+		{"fault(kind|raft-role-of-victim|owns-master-partition)", "kill|follower|not-master"},
+		{"history-of-the-replica-serving-with-one-store-down", "restarted-after-sigkill-during-flush"},
+	}
+	if c.Thorough() {
+		need = append(need, [][2]string{
+			{"fault(kind|raft-role-of-victim|owns-master-partition)", "pause|leader|master"},
+			{"fault(kind|raft-role-of-victim|owns-master-partition)", "pause|follower|not-master"},
+			{"fault(kind|raft-role-of-victim|owns-master-partition)", "kill-during-flush|follower|not-master"},
+			{"fault(kind|raft-role-of-victim|owns-master-partition)", killAfterIdle + "|leader|master"},
+			{"history-of-the-replica-serving-with-one-store-down", "restarted-after-sigkill"},
+			{"history-of-the-replica-serving-with-one-store-down", "restarted-after-sigkill-after-idle-shard-flush"},
+			{"kill-during-flush-point", "flush-after-wal-switch"},
+			{"kill-during-flush-point", "flush-after-index-flush"},
+			{"kill-during-flush-point", "flush-after-commit"},
+		}...)
+	}
+	for _, n := range need {
+		if !c.HasDistinct(n[0], n[1]) {
+			c.Inconclusive("category-not-reached:"+n[0]+"="+n[1], 1)
+		}
+	}
+	// listed in the design, not produced by this driver: no hook point exists inside the raft
+	// apply path, and the kill of a store is never aimed at the catch-up of another one
+	c.Inconclusive("category-not-reached:kill-at-a-hook-point-inside-raft-apply", 1)
+	c.Inconclusive("category-not-reached:kill-during-catch-up-of-a-rejoining-store", 1)
 	c.Finish()
 }
